@@ -498,6 +498,8 @@ Definition sem_ref (i : insn) (len : Z) (s : cpu) : option cpu :=
   | IBcc cc d => Some (with_pc (if cond_ref cc (ccr s) then next + d else next) s)
   | IJmp t => obind (jump_target s t) (fun a => Some (with_pc a s))
   | IBsr d => obind (push32 s next) (fun s1 => Some (with_pc (next + d) s1))
+  (* manual: PC -> @-SP, then EAd -> PC; the register form reads its target after the push (this matters for @ER7 only) *)
+  | IJsr (JReg r) => obind (push32 s next) (fun s1 => Some (with_pc (reg32 s1 r mod A24) s1))
   | IJsr t => obind (jump_target s t) (fun a => obind (push32 s next) (fun s1 => Some (with_pc a s1)))
   | IRts => obind (pop32 s) (fun '(v, s1) => Some (with_pc (v mod A24) s1))
   | IRte => obind (pop32 s) (fun '(v, s1) => Some (with_pc (v mod A24) (with_ccr (v / A24) s1)))
